@@ -28,6 +28,10 @@ type jsgen struct {
 	labels                                                                []string
 	privs                                                                 []string // private names in scope
 	uid                                                                   int
+	realFunc                                                              bool            // inside a non-arrow function (new.target / arguments allowed)
+	noReturn                                                              bool            // class static block / field initialiser: no return
+	lex                                                                   map[string]bool // names declared let/const/class in the current function scope
+	simpleParams                                                          bool            // last params() produced a simple parameter list
 }
 
 var gIds = []string{"a", "b", "c", "x", "y", "z", "f", "g", "o", "arr", "u1"}
@@ -56,7 +60,7 @@ func (g *jsgen) constExpr(d int) string {
 	}
 	switch g.n(6) {
 	case 0:
-		return "(" + g.constExpr(d-1) + " " + g.pick(gBinOps[:20]) + " " + g.constExpr(d-1) + ")"
+		return "((" + g.constExpr(d-1) + ") " + g.pick(gBinOps[:20]) + " " + g.constExpr(d-1) + ")"
 	case 1:
 		return "(" + g.constExpr(d-1) + " " + g.pick([]string{"&&", "||", "??"}) + " " + g.constExpr(d-1) + ")"
 	case 2:
@@ -76,9 +80,9 @@ func (g *jsgen) target(d int) string {
 	case 0, 1, 2, 3:
 		return g.id()
 	case 4, 5:
-		return g.member(d - 1)
+		return g.lhsBase(d-1) + "." + g.pick([]string{"x", "y", "z", "length", "f"})
 	case 6:
-		return g.primary(d-1) + "[" + g.expr(d-1) + "]"
+		return g.lhsBase(d-1) + "[" + g.expr(d-1) + "]"
 	case 7:
 		if g.inMethod {
 			return g.pick([]string{"super.x", "super[" + g.expr(d-1) + "]"})
@@ -90,10 +94,30 @@ func (g *jsgen) target(d int) string {
 		}
 		return "o.y.z"
 	default:
-		if g.inFunc && !g.inArrow && !g.strict {
+		if g.realFunc && !g.inClassInit && !g.strict {
 			return g.pick([]string{"arguments", "arguments[0]"})
 		}
 		return "arr[0]"
+	}
+}
+
+// lhsBase: an object expression that may be followed by .name / [expr] in an assignment target
+func (g *jsgen) lhsBase(d int) string {
+	switch g.n(6) {
+	case 0:
+		return g.pick([]string{"o", "arr", "o.y", "f", "g"})
+	case 1:
+		if g.inFunc || g.inMethod {
+			return "this"
+		}
+		return "o"
+	case 2:
+		if d > 0 {
+			return "(" + g.expr(d-1) + ")"
+		}
+		return "o"
+	default:
+		return g.id()
 	}
 }
 
@@ -122,7 +146,7 @@ func (g *jsgen) primary(d int) string {
 	case 4:
 		return "(" + g.expr(d-1) + ")"
 	case 5:
-		return g.lit()
+		return "(" + g.lit() + ")"
 	default:
 		return g.pick([]string{"o", "arr", "f", "g", "a"})
 	}
@@ -203,35 +227,43 @@ func (g *jsgen) pattern(d int, decl bool) string {
 
 func (g *jsgen) params(d int) string {
 	k := g.n(4)
+	g.simpleParams = true
 	var xs []string
 	for i := 0; i < k; i++ {
 		switch g.n(6) {
 		case 0:
+			g.simpleParams = false
 			xs = append(xs, g.fresh("p")+" = "+g.expr(d-1))
 		case 1:
+			g.simpleParams = false
 			xs = append(xs, g.pattern(d-1, true))
 		case 2:
+			g.simpleParams = false
 			xs = append(xs, g.pattern(d-1, true)+" = "+g.pick([]string{"[]", "{}", "arr", "o"}))
 		default:
 			xs = append(xs, g.pick([]string{"a", "b", "c", "x"})+fmt.Sprint(i))
 		}
 	}
 	if g.p(15) {
+		g.simpleParams = false
 		xs = append(xs, "..."+g.fresh("rest"))
 	}
 	return "(" + strings.Join(xs, ", ") + ")"
 }
 
 type gCtx struct {
+	realFunc, noReturn                                                            bool
+	lex                                                                           map[string]bool
 	inFunc, inArrow, inGen, inAsync, inMethod, inDerivedCtor, inClassInit, strict bool
 	loops, switches                                                               int
 	labels                                                                        []string
 }
 
 func (g *jsgen) save() gCtx {
-	return gCtx{g.inFunc, g.inArrow, g.inGen, g.inAsync, g.inMethod, g.inDerivedCtor, g.inClassInit, g.strict, g.loops, g.switches, g.labels}
+	return gCtx{g.realFunc, g.noReturn, g.lex, g.inFunc, g.inArrow, g.inGen, g.inAsync, g.inMethod, g.inDerivedCtor, g.inClassInit, g.strict, g.loops, g.switches, g.labels}
 }
 func (g *jsgen) restore(c gCtx) {
+	g.realFunc, g.noReturn, g.lex = c.realFunc, c.noReturn, c.lex
 	g.inFunc, g.inArrow, g.inGen, g.inAsync, g.inMethod, g.inDerivedCtor, g.inClassInit, g.strict, g.loops, g.switches, g.labels =
 		c.inFunc, c.inArrow, c.inGen, c.inAsync, c.inMethod, c.inDerivedCtor, c.inClassInit, c.strict, c.loops, c.switches, c.labels
 }
@@ -245,14 +277,17 @@ func (g *jsgen) funcBody(d int, gen, async, arrow, method bool) string {
 		g.inDerivedCtor = false
 		g.inClassInit = false
 	}
+	simple := g.simpleParams
 	g.inFunc, g.inArrow, g.inGen, g.inAsync = true, arrow, gen, async
-	if arrow && !c.inFunc {
-		g.inFunc = true // `arguments` still not allowed: handled by inArrow
+	if !arrow {
+		g.realFunc = true
+		g.noReturn = false
 	}
+	g.lex = map[string]bool{}
 	g.loops, g.switches, g.labels = 0, 0, nil
 	var b strings.Builder
 	b.WriteString("{ ")
-	if !g.strict && g.p(8) {
+	if !g.strict && simple && g.p(8) {
 		b.WriteString("\"use strict\"; ")
 		g.strict = true
 	}
@@ -264,7 +299,7 @@ func (g *jsgen) funcBody(d int, gen, async, arrow, method bool) string {
 		b.WriteString(g.stmt(d - 1))
 		b.WriteString(" ")
 	}
-	if g.p(50) {
+	if g.p(50) && !g.noReturn {
 		b.WriteString("return " + g.expr(d-1) + "; ")
 	}
 	b.WriteString("}")
@@ -281,8 +316,10 @@ func (g *jsgen) localDecls(d int) string {
 		case 0:
 			b.WriteString("var " + id + " = " + g.expr(d-1) + "; ")
 		case 1:
+			g.lex[id] = true
 			b.WriteString("let " + id + " = " + g.expr(d-1) + "; ")
 		case 2:
+			g.lex[id] = true
 			b.WriteString("const " + id + " = " + g.expr(d-1) + "; ")
 		default:
 			b.WriteString("var " + id + "; ")
@@ -305,9 +342,10 @@ func (g *jsgen) funcExpr(d int) string {
 			return "(" + g.params(d) + " => " + g.funcBody(d, false, false, true, false) + ")"
 		}
 		c := g.save()
+		ps := g.params(d)
 		g.inArrow, g.inGen, g.inAsync = true, false, false
 		g.inFunc = true
-		s := "(" + g.params(d) + " => (" + g.expr(d-1) + "))"
+		s := "(" + ps + " => (" + g.expr(d-1) + "))"
 		g.restore(c)
 		return s
 	case 3:
@@ -409,10 +447,30 @@ func (g *jsgen) classExpr(d int) string {
 			b.WriteString(st + g.propKey(d) + " = " + g.exprIn(d-1, true) + "; ")
 			g.inClassInit = false
 		case 6:
-			b.WriteString("static " + g.funcBody(d-1, false, false, false, true) + " ")
+			g.simpleParams = true
+			body := g.funcBody(d-1, false, false, false, true)
+			b.WriteString("static " + g.staticBlock(d-1) + " ")
+			_ = body
 		default:
 			b.WriteString(st + g.propKey(d) + "; ")
 		}
+	}
+	b.WriteString("}")
+	return b.String()
+}
+
+// staticBlock: `{ stmts }` of a class static initialisation block (no return, no arguments, this/super allowed)
+func (g *jsgen) staticBlock(d int) string {
+	c := g.save()
+	defer g.restore(c)
+	g.inMethod, g.inFunc, g.inArrow, g.inGen, g.inAsync, g.inClassInit, g.noReturn = true, true, false, false, false, true, true
+	g.realFunc = false
+	g.lex = map[string]bool{}
+	g.loops, g.switches, g.labels = 0, 0, nil
+	var b strings.Builder
+	b.WriteString("{ ")
+	for i := 0; i < 1+g.n(2); i++ {
+		b.WriteString(g.stmt(d-1) + " ")
 	}
 	b.WriteString("}")
 	return b.String()
@@ -423,14 +481,23 @@ func (g *jsgen) exprIn(d int, method bool) string {
 	c := g.save()
 	defer g.restore(c)
 	g.inMethod, g.inFunc, g.inArrow, g.inGen, g.inAsync = method, true, true, false, false
+	g.realFunc, g.noReturn = false, true
 	return g.expr(d)
 }
 
 func (g *jsgen) objectLit(d int) string {
 	k := g.n(4)
 	var xs []string
+	proto := false
 	for i := 0; i < k; i++ {
-		switch g.n(9) {
+		c := g.n(9)
+		if c == 6 {
+			if proto {
+				c = 0
+			}
+			proto = true
+		}
+		switch c {
 		case 0:
 			xs = append(xs, g.propKey(d)+": "+g.expr(d-1))
 		case 1:
@@ -510,7 +577,7 @@ func (g *jsgen) expr(d int) string {
 		}
 		return t + g.pick([]string{"++", "--"})
 	case 7, 8:
-		return "(" + g.expr(d-1) + " " + g.pick(gBinOps) + " " + g.expr(d-1) + ")"
+		return "((" + g.expr(d-1) + ") " + g.pick(gBinOps) + " " + g.expr(d-1) + ")"
 	case 9, 10:
 		l := g.expr(d - 1)
 		if g.p(50) {
@@ -577,7 +644,7 @@ func (g *jsgen) expr(d int) string {
 	case 26:
 		return g.templateLit(d)
 	case 27:
-		if g.inFunc && !g.inClassInit || g.inMethod {
+		if g.realFunc && !g.inClassInit {
 			return g.pick([]string{"this", "this.x", "new.target"})
 		}
 		return "this"
@@ -596,7 +663,7 @@ func (g *jsgen) expr(d int) string {
 		return g.expr(d - 1)
 	case 30:
 		if g.inMethod {
-			return g.pick([]string{"super.x", "super[" + g.expr(d-1) + "]", "super.f" + g.args(d-1), "super.x = " + g.expr(d-1)})
+			return g.pick([]string{"super.x", "super[" + g.expr(d-1) + "]", "super.f" + g.args(d-1), "(super.x = " + g.expr(d-1) + ")"})
 		}
 		return g.member(d)
 	case 31:
@@ -606,7 +673,7 @@ func (g *jsgen) expr(d int) string {
 		}
 		return g.lit()
 	case 32:
-		if g.inFunc && !g.inArrow && !g.inClassInit {
+		if g.realFunc && !g.inClassInit {
 			return g.pick([]string{"arguments", "arguments[0]", "arguments.length"})
 		}
 		return g.id()
@@ -640,11 +707,22 @@ func (g *jsgen) jump() string {
 	if len(g.labels) > 0 {
 		opts = append(opts, "break "+g.pick(g.labels)+";")
 	}
-	if g.inFunc && !g.inClassInit {
+	if g.inFunc && !g.noReturn {
 		opts = append(opts, "return;", "return "+g.expr(1)+";")
 	}
 	opts = append(opts, "throw "+g.expr(1)+";")
 	return g.pick(opts)
+}
+
+// body: a statement usable where a single statement is required (if / else / label / loop bodies)
+func (g *jsgen) body(d int) string {
+	st := g.stmt(d)
+	if g.p(30) && !strings.HasPrefix(st, "let ") && !strings.HasPrefix(st, "const ") && !strings.HasPrefix(st, "class ") &&
+		!strings.HasPrefix(st, "function") && !strings.HasPrefix(st, "async function") && !strings.Contains(st, "\n") && strings.Count(st, ";") <= 1 &&
+		!strings.HasPrefix(st, "if ") {
+		return st
+	}
+	return "{ " + st + " }"
 }
 
 func (g *jsgen) stmt(d int) string {
@@ -656,14 +734,14 @@ func (g *jsgen) stmt(d int) string {
 	case 0, 1, 2, 3, 4, 5:
 		return g.expr(d) + ";"
 	case 6:
-		return "if (" + g.expr(d-1) + ") " + g.stmt(d-1) + func() string {
+		return "if (" + g.expr(d-1) + ") " + g.body(d-1) + func() string {
 			if g.p(50) {
-				return " else " + g.stmt(d-1)
+				return " else " + g.body(d-1)
 			}
 			return ""
 		}()
 	case 7:
-		return "if (" + g.constExpr(1) + ") " + g.stmt(d-1) + " else " + g.stmt(d-1)
+		return "if (" + g.constExpr(1) + ") " + g.body(d-1) + " else " + g.body(d-1)
 	case 8:
 		v := g.fresh("i")
 		g.loops++
@@ -710,13 +788,13 @@ func (g *jsgen) stmt(d int) string {
 		b.WriteString("switch (" + g.expr(d-1) + ") { ")
 		k := g.n(3)
 		for i := 0; i < k; i++ {
-			b.WriteString("case " + g.expr(1) + ": " + g.stmt(d-1) + " ")
+			b.WriteString("case " + g.expr(1) + ": " + g.body(d-1) + " ")
 			if g.p(50) {
 				b.WriteString("break; ")
 			}
 		}
 		if g.p(50) {
-			b.WriteString("default: " + g.stmt(d-1) + " ")
+			b.WriteString("default: " + g.body(d-1) + " ")
 		}
 		b.WriteString("}")
 		g.switches--
@@ -724,7 +802,7 @@ func (g *jsgen) stmt(d int) string {
 	case 17:
 		l := g.fresh("L")
 		g.labels = append(g.labels, l)
-		s := l + ": " + g.stmt(d-1)
+		s := l + ": " + g.body(d-1)
 		g.labels = g.labels[:len(g.labels)-1]
 		return s
 	case 18:
@@ -733,7 +811,7 @@ func (g *jsgen) stmt(d int) string {
 		if g.p(60) {
 			return g.jump()
 		}
-		return "if (" + g.expr(1) + ") " + g.jump()
+		return "if (" + g.expr(1) + ") { " + g.jump() + " }"
 	case 20:
 		if !g.strict {
 			return "with (" + g.pick([]string{"o", "arr", "{x:1, a:2}", g.expr(d - 1)}) + ") " + g.block(d)
@@ -742,7 +820,11 @@ func (g *jsgen) stmt(d int) string {
 	case 21:
 		return g.pick([]string{"var ", "let ", "const "}) + g.pattern(d-1, true) + " = " + g.pick([]string{"arr", "o", "[]", "{}", "\"xy\""}) + ";"
 	case 22:
-		return "var " + g.id() + " = " + g.expr(d-1) + ";"
+		id := g.id()
+		if g.lex[id] {
+			return id + " = " + g.expr(d-1) + ";"
+		}
+		return "var " + id + " = " + g.expr(d-1) + ";"
 	case 23:
 		return "{ " + g.pick([]string{"let ", "const "}) + g.pick([]string{"a", "x", "f"}) + " = " + g.expr(d-1) + "; " + g.stmt(d-1) + " }"
 	case 24:
@@ -828,8 +910,18 @@ func GenProgram(r *common.SplitMix64, o GenOpt) string {
 	if o.MaxDepth < 2 {
 		o.MaxDepth = 2
 	}
+	g.lex = map[string]bool{}
+	wrap := g.n(5)
 	if o.Placement == 1 {
 		g.inFunc = true
+		g.realFunc = wrap != 1
+		if wrap == 3 {
+			g.strict = true // class bodies are strict code
+			g.inMethod = true
+		}
+		if wrap == 2 {
+			g.inMethod = true
+		}
 	}
 	var body strings.Builder
 	body.WriteString("var __n = 0; ")
@@ -839,8 +931,10 @@ func GenProgram(r *common.SplitMix64, o GenOpt) string {
 		case 0:
 			body.WriteString("var " + id + " = " + g.lit() + "; ")
 		case 1:
+			g.lex[id] = true
 			body.WriteString("let " + id + " = " + g.lit() + "; ")
 		case 2:
+			g.lex[id] = true
 			body.WriteString("const " + id + " = " + g.lit() + "; ")
 		case 3:
 			body.WriteString("var " + id + "; ")
@@ -867,7 +961,7 @@ func GenProgram(r *common.SplitMix64, o GenOpt) string {
 	}
 	switch o.Placement {
 	case 1:
-		switch g.n(5) {
+		switch wrap {
 		case 0:
 			src = pre + "(function () {\n" + src + "\n}).call({});"
 		case 1:
